@@ -1,0 +1,55 @@
+//go:build verif
+
+// Contracts for package internal (directive compiler and generator), checked
+// by /verif/engine (cffvc, pass K). Comments only.
+//
+// go/types, go/ast, typeutil, go/constant are external: their functions are
+// opaque (results arbitrary) unless a prelude contract says otherwise.
+// "typeChecked" preconditions state what the Go type checker guarantees for a
+// call of a cff directive stub that compiled under the cff tag (arity and the
+// presence of every argument in types.Info).
+
+package internal
+
+// ---------------------------------------------------------------------------
+// C14: a Slice / Map is accepted exactly when the collection's element (key,
+// value) types are assignable to the corresponding parameters of its function.
+// types.AssignableTo(V, T) reports whether a value of type V is assignable to T.
+
+//@ func (*compiler).compileSlice
+//@   option props=[C13]
+//@   ghost elemT ref = 0
+//@   ghost asked bool = false
+//@   ghost assignable bool = false
+//@   requires c != nil && ce != nil && c.info != nil
+//@   requires typeChecked-slice-has-function-and-collection: len(ce.Args) >= 2
+//@   at call compileFunction 1 assume compiled-function-well-formed: implies(ret != nil, len(ret.Inputs) >= 0 && len(ret.Outputs) >= 0)
+//@   at call Elem 1 ghost elemT = ret
+//@   at call AssignableTo 1 pre assert [C14] asks-whether-element-is-assignable-to-parameter: arg0 == elemT && arg1 == fn.Inputs[elemParamPos] && (elemParamPos == 0 || elemParamPos == 1) && elemParamPos == len(fn.Inputs) - 1
+//@   at call AssignableTo 1 ghost asked = true
+//@   at call AssignableTo 1 ghost assignable = ret
+//@   ensures [C14] accepted-only-if-element-assignable: implies(result != nil, asked && assignable)
+//@   ensures [C14] assignable-element-is-accepted: implies(asked && assignable, result != nil)
+//@   ensures [C14] accepted-records-element-type: implies(result != nil, result.ElemType == elemT && result.Function == fn)
+
+//@ func (*compiler).compileMap
+//@   option props=[C13]
+//@   ghost keyT ref = 0
+//@   ghost valT ref = 0
+//@   ghost askedKey bool = false
+//@   ghost askedVal bool = false
+//@   ghost keyOK bool = false
+//@   ghost valOK bool = false
+//@   requires c != nil && ce != nil && c.info != nil
+//@   requires typeChecked-map-has-function-and-collection: len(ce.Args) >= 2
+//@   at call compileFunction 1 assume compiled-function-well-formed: implies(ret != nil, len(ret.Inputs) >= 0 && len(ret.Outputs) >= 0)
+//@   at call Key 1 ghost keyT = ret
+//@   at call Elem 1 ghost valT = ret
+//@   at call AssignableTo 1 pre assert [C14] asks-whether-key-is-assignable-to-first-parameter: arg0 == keyT && arg1 == fn.Inputs[0] && len(fn.Inputs) == 2
+//@   at call AssignableTo 1 ghost askedKey = true
+//@   at call AssignableTo 1 ghost keyOK = ret
+//@   at call AssignableTo 2 pre assert [C14] asks-whether-value-is-assignable-to-second-parameter: arg0 == valT && arg1 == fn.Inputs[1] && len(fn.Inputs) == 2
+//@   at call AssignableTo 2 ghost askedVal = true
+//@   at call AssignableTo 2 ghost valOK = ret
+//@   ensures [C14] accepted-only-if-key-and-value-assignable: implies(result != nil, askedKey && keyOK && askedVal && valOK)
+//@   ensures [C14] assignable-key-and-value-are-accepted: implies(askedKey && keyOK && askedVal && valOK, result != nil)
